@@ -90,6 +90,7 @@ pub enum Buf {
     Zero,
     One,
     Three,
+    Four,
     ExactMinus1,
     Exact,
     SixtyFour,
@@ -102,6 +103,7 @@ impl Buf {
             Buf::Zero => "buf0",
             Buf::One => "buf1",
             Buf::Three => "buf3",
+            Buf::Four => "buf4",
             Buf::ExactMinus1 => "exact-1",
             Buf::Exact => "exact",
             Buf::SixtyFour => "buf64",
@@ -114,6 +116,7 @@ impl Buf {
             Buf::Zero | Buf::NullZero => 0,
             Buf::One => 1,
             Buf::Three => 3,
+            Buf::Four => 4,
             Buf::ExactMinus1 => exact.saturating_sub(1),
             Buf::Exact => exact,
             Buf::SixtyFour => 64,
@@ -335,6 +338,16 @@ pub fn alphabet(full: bool) -> Vec<Act> {
         v.push(Info(Kind::File, s, INFO_POSITION, Buf::Exact, true));
     }
     v.push(Info(Kind::File, Sel::First, INFO_POSITION, Buf::Three, true));
+    // every information class of a file / an archive x every buffer size between "one dword" and "exact":
+    // a class whose size test and copy length disagree only shows for sizes strictly between the two
+    for b in [Buf::Four, Buf::ExactMinus1] {
+        for c in [INFO_POSITION, INFO_FILE_SIZE] {
+            v.push(Info(Kind::File, Sel::First, c, b, true));
+        }
+        for c in [INFO_ARCHIVE_SIZE, INFO_HASH_TABLE_SIZE, INFO_BLOCK_TABLE_SIZE, INFO_SECTOR_SIZE] {
+            v.push(Info(Kind::Arch, Sel::First, c, b, true));
+        }
+    }
     v.push(Info(Kind::File, Sel::First, INFO_FILE_SIZE, Buf::Exact, false));
     v.push(Info(Kind::File, Sel::First, INFO_FILE_SIZE, Buf::NullZero, true));
     v.push(Info(Kind::File, Sel::First, INFO_HASH_TABLE_SIZE, Buf::Exact, true));
